@@ -30,6 +30,9 @@ struct MutCase {
     from: usize,
     to: usize,
     value: Option<u32>,
+    /// 32-bit fields are placed at offsets that are multiples of this (4 = aligned fields, quick tier; 1 = every offset, thorough tier)
+    #[serde(default)]
+    u32_step: usize,
 }
 #[derive(Serialize, Deserialize, Hash, Clone, Copy, Debug, PartialEq, Eq)]
 enum Kind {
@@ -136,7 +139,7 @@ fn entry_points() -> Vec<Ep> {
             drive: d::reflog,
             wrap: Wrap::Raw,
             tokens: t(&[H, b" ", SIG, b"\t", b"msg", b"\n", b"<", b">", b"0", b"\r", b"+"]),
-            len: (4, 6),
+            len: (3, 5),
             formats: &["reflog"],
         },
         Ep {
@@ -173,7 +176,7 @@ fn entry_points() -> Vec<Ep> {
                 vec![0; 20],
                 vec![0xff; 4],
             ],
-            len: (4, 5),
+            len: (3, 5),
             formats: &["index"],
         },
         Ep { name: "commit-graph", drive: d::commit_graph, wrap: Wrap::Raw, tokens: vec![], len: (0, 0), formats: &["commit-graph"] },
@@ -192,7 +195,7 @@ fn entry_points() -> Vec<Ep> {
             drive: d::ewah,
             wrap: Wrap::Raw,
             tokens: t(&[&[0, 0, 0, 0], &[0, 0, 0, 1], &[0, 0, 0, 2], &[0, 0, 0, 3], &[0, 0, 0, 0x40], &[0x7f, 0xff, 0xff, 0xff], &[0xff; 4], &[0x80, 0, 0, 0]]),
-            len: (6, 8),
+            len: (6, 7),
             formats: &["ewah"],
         },
         Ep {
@@ -232,7 +235,7 @@ fn entry_points() -> Vec<Ep> {
             drive: d::credentials,
             wrap: Wrap::Raw,
             tokens: t(&[b"url", b"=", b"\n", b"a", b"://", b"host", b"protocol", b"path", b"/", b"\0", b"\r", b"@", b":", b"quit"]),
-            len: (4, 6),
+            len: (4, 5),
             formats: &["credentials"],
         },
         Ep {
@@ -248,7 +251,7 @@ fn entry_points() -> Vec<Ep> {
             drive: d::refspec,
             wrap: Wrap::Raw,
             tokens: t(&[b"+", b"^", b":", b"refs/heads/", b"*", b"a", b"/", b"@", b"HEAD", b" ", b"..", b"~", b"\0"]),
-            len: (4, 6),
+            len: (4, 5),
             formats: &[],
         },
         Ep {
@@ -288,7 +291,7 @@ fn entry_points() -> Vec<Ep> {
             drive: d::pktline_decode,
             wrap: Wrap::Raw,
             tokens: t(&[b"0", b"4", b"5", b"f", b"g", b"\n", &[1], &[2], &[3], b"ERR "]),
-            len: (5, 7),
+            len: (4, 6),
             formats: &["advertisement", "ls-refs", "fetch-v1", "fetch-v2"],
         },
         Ep {
@@ -296,7 +299,7 @@ fn entry_points() -> Vec<Ep> {
             drive: d::pktline_reader,
             wrap: Wrap::Raw,
             tokens: t(&[b"0", b"4", b"5", b"f", b"g", b"\n", &[1], &[2], &[3], b"ERR "]),
-            len: (5, 6),
+            len: (4, 6),
             formats: &["advertisement", "ls-refs", "fetch-v1", "fetch-v2"],
         },
         Ep {
@@ -375,7 +378,7 @@ fn entry_points() -> Vec<Ep> {
                 hp("ERR e"),
                 pkt(b"PACK"),
             ],
-            len: (3, 5),
+            len: (3, 4),
             formats: &["fetch-v1"],
         },
         Ep {
@@ -502,6 +505,7 @@ fn run_block<C: Serialize>(
 }
 
 fn mutations_of(seed: &[u8], c: &MutCase, mut f: impl FnMut(Mutation)) {
+    let u32_step = c.u32_step.max(1);
     match c.kind {
         Kind::Seed => f(Mutation::None),
         Kind::Trunc => (c.from..c.to.min(seed.len())).for_each(|n| f(Mutation::Trunc(n))),
@@ -522,7 +526,7 @@ fn mutations_of(seed: &[u8], c: &MutCase, mut f: impl FnMut(Mutation)) {
             }
         }
         Kind::U32 => {
-            for at in c.from..c.to {
+            for at in (c.from..c.to).filter(|at| at % u32_step == 0) {
                 if at + 4 > seed.len() {
                     break;
                 }
@@ -555,7 +559,7 @@ pub fn run(run: &'static Run) {
     run.rule(
         "per entry point (one sub-check each, `<name>` = token strings, `<name>~seeds` = mutations): (a) every concatenation of <= L tokens of a per-format token alphabet (L = quick/thorough, see coverage key `alphabets`); \
          (b) for every git-produced valid seed of the format: the seed itself, truncation at every offset, every byte set to 0x00 / 0xff / ^0x01 / ^0x80, \
-         every 32-bit big-endian field at every byte offset set to 0 / 1 / 0x7fffffff / 0xffffffff. Oracle: decoder + walk of the decoded value returns without panic/abort; a block (<= 4096 token strings / <= 64 mutations) must finish within 5 s; \
+         every 32-bit big-endian field (quick: at every 4-aligned offset, thorough: at every byte offset) set to 0 / 1 / 0x7fffffff / 0xffffffff. Oracle: decoder + walk of the decoded value returns without panic/abort; a block (<= 4096 token strings / <= 64 mutations) must finish within 5 s; \
          a single allocation request >= 64 MiB is flagged, >= 1 GiB is refused (abort, attributed by the driver). One vkit case = one block of inputs (prefix + all short tails / 16 offsets of one mutation kind; a mutation case carries its seed bytes); \
          per-input counts are in coverage keys `inputs`, `inputs_accepted`, `input_outcomes`. \
          non-trivial block = a decoder accepted at least one input, or the inputs are mutations of a valid encoding (reach deep decoder states)",
@@ -661,7 +665,13 @@ pub fn run(run: &'static Run) {
             outcome_info.insert(ep.name.to_string(), stats.classes.lock().unwrap().clone());
         }
         // ---------- (b) mutations of valid seeds ----------
-        let seeds: Vec<&seeds::Seed> = corpus.seeds.iter().filter(|s| ep.formats.contains(&s.format) && !(run.quick() && s.thorough_only)).collect();
+        let seeds: Vec<&seeds::Seed> = corpus
+            .seeds
+            .iter()
+            .filter(|s| ep.formats.contains(&s.format) && !(run.quick() && s.thorough_only))
+            // quick tier: the file-based index entry point gets one seed (its extra code over the in-memory decoder is the checksum check), `index-threaded` gets all
+            .filter(|s| !(run.quick() && ep.name == "index-file" && s.name != "v2-tree"))
+            .collect();
         if (seeds.is_empty() && !run.is_replay()) || ep.formats.is_empty() {
             wall_info.insert(ep.name.to_string(), (t_ep.elapsed().as_secs_f64() * 10.0).round() / 10.0);
             continue;
@@ -671,13 +681,14 @@ pub fn run(run: &'static Run) {
         let primary = ep.formats[0];
         let sub = format!("{}~seeds", ep.name);
         let stats = Stats::default();
+        let u32_step = run.pick(4usize, 1);
         run.sub_with(
             &sub,
             // file-based decoders mmap/munmap per input: in one process that serialises on the address-space lock, one thread is faster than 16
             if matches!(ep.name, "index-file" | "commit-graph" | "multi-pack-index" | "pack-idx") { opts().chunk(64).serial() } else { opts().chunk(64) },
             |emit| {
                 for (name, s) in &by_name {
-                    let mk = |kind, from, to| MutCase { seed: name.clone(), bytes: B(s.bytes.clone()), kind, from, to, value: None };
+                    let mk = |kind, from, to| MutCase { seed: name.clone(), bytes: B(s.bytes.clone()), kind, from, to, value: None, u32_step };
                     emit(mk(Kind::Seed, 0, 0));
                     for kind in [Kind::Trunc, Kind::Byte, Kind::U32] {
                         let mut from = 0;
@@ -707,7 +718,7 @@ pub fn run(run: &'static Run) {
                                 Mutation::Byte(at, v) => (Kind::Byte, at, Some(u32::from(v))),
                                 Mutation::U32(at, v) => (Kind::U32, at, Some(v)),
                             };
-                            MutCase { seed: c.seed.clone(), bytes: c.bytes.clone(), kind, from: at, to: at + 1, value }
+                            MutCase { seed: c.seed.clone(), bytes: c.bytes.clone(), kind, from: at, to: at + 1, value, u32_step: 1 }
                         });
                     })
                 })
